@@ -4,11 +4,13 @@
 WT=${1:-/tmp/wt_seeds}
 cd /repo && (git worktree list | grep -q "$WT" || git worktree add -q --detach "$WT" HEAD)
 fail=0
+SH_K=${SHARD%%/*}; SH_N=${SHARD##*/}; [ -z "$SHARD" ] && { SH_K=0; SH_N=1; }; idx=0
 # run from a snapshot of /verif's code (sharing .work and the driver), so that editing /verif meanwhile does not disturb the run
 SNAP=$(mktemp -d /tmp/verif_snap.XXXXXX)
 rsync -a --exclude .work --exclude .git --exclude ptfacts --exclude out --exclude evidence /verif/ "$SNAP"/
 ln -s /verif/.work "$SNAP/.work"; ln -s /verif/ptfacts "$SNAP/ptfacts"
 for d in /verif/seeded/*/; do
+  idx=$((idx+1)); [ $((idx % SH_N)) -ne $SH_K ] && continue
   id=$(basename "$d"); prop=${id%%-*}
   (cd "$WT" && git checkout -q -- . && git clean -fdq -e target && git apply "$d/patch.diff") || { echo "APPLY-FAIL $id"; fail=1; continue; }
   out=$(cd "$SNAP" && PT_REPO="$WT" ./check $prop 2>&1); rc=$?
